@@ -258,6 +258,8 @@ def emit_fn(b, out, meta, unit_rw, unit_name):
     body, nrw = apply_rw(body, list(b.d['rw']) + [r for r in unit_rw], '%s::%s' % (rel, name))
     meta['rewrites'] += nrw
     newname = b.d['as'] or name
+    qm = re.findall(r'[A-Za-z_]\w*', ctx)
+    qual = (qm[-1] + '::') if (qm and ctx not in ('-', '')) else ''
     if b.d['sig']:
         sig = b.d['sig'].rstrip()
     else:
@@ -276,7 +278,7 @@ def emit_fn(b, out, meta, unit_rw, unit_name):
     end_line = len(out)
     rec = dict(name=newname, repo_file=rel, repo_line=f['line'], ctx=ctx, sha256=f['sha256'],
                gen_lines=[start_line, end_line], canary=None, desc=b.d['desc'] or norm_ws(spec)[:300],
-               props=b.d['props'], rewrites=nrw, key='%s::%s' % (unit_name, newname))
+               props=b.d['props'], rewrites=nrw, key='%s::%s%s' % (unit_name, qual, newname), qual=qual)
     if not b.d['nocanary']:
         req, _ = split_spec(spec)
         cname = 'vacuity_' + newname
@@ -450,10 +452,11 @@ def analyse(meta, r):
     try:
         for mt in js['times-ms']['smt']['smt-run-module-times']:
             for fb in mt.get('function-breakdown', []):
-                nm = fb['function'].split('::')[-1]
+                nm = fb['function']
                 res['smt_ms'] += fb.get('time', 0)
                 for f in meta['functions']:
-                    if f['name'] == nm:
+                    if nm.endswith('::' + f['qual'] + f['name']) or (nm.split('::')[-1] == f['name'] and fstat[f['key']]['time_ms'] is None
+                                                                     and not nm.endswith('::vacuity_' + f['name'])):
                         fstat[f['key']]['time_ms'] = fb.get('time', 0)
     except (KeyError, TypeError):
         pass
